@@ -85,9 +85,9 @@ type plan struct {
 	VCDelayMs    []int
 	HeadChoice   []int // per node: index into the pool of candidate head roots
 	SplitFFG     []bool
-	SyncChoice   []int // per node: index into the pool of sync block roots
-	ResignMs     []int // per node: -1, or the delay after which the node's VC signs its non-consensus duties AGAIN for other data (VC restart / fail-over inside the slot)
-	SyncChoice2  []int // per node: the head the re-signing VC sees the second time
+	SyncChoice   []int  // per node: index into the pool of sync block roots
+	ResignMs     []int  // per node: -1, or the delay after which the node's VC signs its non-consensus duties AGAIN for other data (VC restart / fail-over inside the slot)
+	SyncChoice2  []int  // per node: the head the re-signing VC sees the second time
 	SyncSplit    string // "balanced": the nodes' beacon nodes are split evenly between two heads
 	LossyLinks   int    // number of directed links that lose about half of their messages
 	ExitEpochOff []int
@@ -274,7 +274,7 @@ func makePlan(rng *rand.Rand) *plan {
 		p.ResignMs = append(p.ResignMs, -1)
 		p.SyncChoice2 = append(p.SyncChoice2, p.SyncChoice[i])
 	}
-	if rng.Intn(100) < 55 {
+	if rng.Intn(100) < 45 {
 		p.SyncSplit = "balanced"
 		var honest []int
 		for _, i := range rng.Perm(p.N) {
